@@ -56,6 +56,32 @@ class Draws:
         return a
 
 
+class MarkovRuns:
+    """Random source for whole sessions: the session re-seeds before every walk, so seed() marks the start of a walk; the first draw of a walk picks
+    the base structure - `run_len` walks onto the Markov structure, then one onto a dictionary structure, and so on; every other draw is 0.5 / index 0."""
+
+    def __init__(self, run_len, m_draw, word_draw):
+        self.run_len, self.m_draw, self.word_draw = run_len, m_draw, word_draw
+        self.walks = 0
+        self.first = False
+
+    def seed(self, *a):
+        self.walks += 1
+        self.first = True
+
+    def random(self):
+        if self.first:
+            self.first = False
+            return self.word_draw if self.walks % (self.run_len + 1) == 0 else self.m_draw
+        return 0.5
+
+    def choice(self, seq):
+        return seq[0]
+
+    def randint(self, a, b):
+        return a
+
+
 def rulesets(tier):
     """(name, types {t: [(prob,[values])]}, base [(prob,[types])])"""
     out = []
@@ -291,6 +317,22 @@ def run_session(tier, acc):
                 r2 = S.run_guesser(td, ['-r', 'v', '-m', mode, '-n', str(N)])
                 if r2.stdout != r1.stdout:
                     acc.fail(case, 'two random_walk runs differ: %r vs %r' % (r1.stdout[:4], r2.stdout[:4]), 'session-reproducible')
+    # runs of walks that land on the Markov structure (no honeyword for those: the session just walks again) between the walks that give a word:
+    # however long such a run is, --limit N still means N words
+    for mode in ('random_walk', 'honeywords'):
+        for run_len, N in ((0, 3), (1, 3), (7, 3), (2500, 1), (1200, 3)):
+            drv = MarkovRuns(run_len, m_draw=0.6, word_draw=0.1)
+            r1 = S.run_guesser(td, ['-r', 'v', '-m', mode, '-n', str(N)], rng=drv)
+            acc.evals += 1
+            acc.nontrivial += 1
+            case = {'layer': 'session', 'mode': mode, 'N': N, 'markov_run': run_len}
+            if r1.exc:
+                acc.fail(case, '%s -n %d raised %s' % (mode, N, r1.exc.strip().splitlines()[-1]), 'session-raise')
+            elif len(r1.stdout) != N or any(w not in lang for w in r1.stdout):
+                acc.fail(case, '%s -n %d with %d walks onto the Markov structure before every word produced %d words %r (%d walks made)'
+                         % (mode, N, run_len, len(r1.stdout), r1.stdout[:3], drv.walks), 'session-count')
+            elif drv.walks != (run_len + 1) * N:
+                acc.fail(case, 'harness: %d walks made, the draw plan expects %d' % (drv.walks, (run_len + 1) * N), 'harness-plan')
     verif = os.path.dirname(os.path.dirname(os.path.dirname(os.path.abspath(__file__))))
     outs = []
     for seed in ('1', '2'):
